@@ -98,10 +98,17 @@ package verifspec
 //@   hint return: ext(encoded[3:], h.Payload)
 //@   ensures err == nil ==> out(w) == cat(old(out(w)), cat(byteseq(8), byteseq(len(h.Payload) / 256), byteseq(len(h.Payload) % 256), seq(h.Payload)))
 
-//@ extern internal/sourcemapx.Hint.Unpack
-//@   param h
+// Hint.Unpack: every hint is decoded into a target allocated for this call (gob leaves fields that are absent from the
+// stream untouched, so a reused target would carry the previous hint's fields over); the result has the type the flag
+// byte announces.
+//@ func internal/sourcemapx.Hint.Unpack
+//@ property C19
 //@   results value err
-//@   assigns nothing
+//@   panics_only_if true
+//@   requires h != nil
+//@   oncall Decode: assert newobj(boxed(a0))
+//@   ensures err == nil ==> (h.Payload[0] == 1 ==> typeis(value, "go/token.Pos")) && (h.Payload[0] == 2 ==> typeis(value, "internal/sourcemapx.Identifier"))
+//@   ensures err == nil ==> h.Payload[0] == 1 || h.Payload[0] == 2
 
 //@ extern go/token.FileSet.Position
 //@   param s p
